@@ -78,6 +78,8 @@ struct RealSetup {
   std::string problem;
 };
 
+bool subMode = false;   // set by the mode sublookup
+
 std::string runOrder(const Case &c, const std::vector<int> &order, std::vector<int> &outcomes, std::vector<bool> &acceptedOut) {
   const auto lookups = lookupsFor(c);
   outcomes.clear();
@@ -85,10 +87,18 @@ std::string runOrder(const Case &c, const std::vector<int> &order, std::vector<i
   for (size_t li = 0; li <= lookups.size(); ++li) {
     std::vector<int> dest(c.specs.size(), -1);
     std::ostringstream out, err;
+    // sub-group arguments (mode sublookup: member[idx] == 1) enter a handler of their own, whose positional argument
+    // receives the value: which argument was selected is visible in the same way for both kinds
+    std::vector<std::unique_ptr<Handler>> subs(c.specs.size());
     Handler h(out, err, (c.abbrev ? 0 : Handler::hfNoAbbr) | Handler::hfUsageCont);
     std::vector<bool> accepted(c.specs.size(), false);
     for (int idx : order) {
       try {
+        if (subMode && c.member[idx] == 1) {
+          subs[idx].reset(new Handler(out, err, Handler::hfUsageCont));
+          subs[idx]->addArgument("-", cpa::destination(dest[idx], "sub" + std::to_string(idx)), "value");
+          h.addArgument(c.specs[idx].text, *subs[idx], "desc");
+        } else
         h.addArgument(c.specs[idx].text, cpa::destination(dest[idx], "dest" + std::to_string(idx)), "desc");
         accepted[idx] = true;
       } catch (const std::exception &) {
@@ -155,6 +165,14 @@ std::string runCase(const Case &c) {
   if (nestedPrefix) st.cls("nested_prefix_keys");
   if (!c.abbrev) st.cls("abbreviations_off");
   if (c.orders.size() > 6) st.cls("all_permutations");
+  if (subMode) {
+    bool anySub = false, anyPlain = false, prefixAcross = false;
+    for (size_t i = 0; i < c.specs.size(); ++i) { (c.member[i] == 1 ? anySub : anyPlain) = true; }
+    for (size_t i = 0; i < c.specs.size(); ++i) for (size_t j = 0; j < c.specs.size(); ++j)
+      if (c.member[i] != c.member[j] && !c.specs[i].l.empty() && c.specs[j].l.size() > c.specs[i].l.size() && c.specs[j].l.compare(0, c.specs[i].l.size(), c.specs[i].l) == 0) prefixAcross = true;
+    if (anySub && anyPlain) st.cls("sub_group_and_ordinary_arguments");
+    if (prefixAcross) st.cls("prefix_relation_across_the_two_kinds");
+  }
   if (nestedPrefix || conflict) st.markNontrivial();
   return "";
 }
@@ -259,6 +277,10 @@ struct Init {
   Init() {
     auto &m = addMode<Case>("lookup");
     m.gen = []() { return genCase(false); }; m.run = runCase; m.show = showCase; m.parse = parseCase;
+    auto &sm = addMode<Case>("sublookup");
+    sm.gen = []() { return rc::gen::exec([]() { Case c = *genCase(false); for (auto &m : c.member) m = *range<int>(0, 9) < 4 ? 1 : 0; return c; }); };
+    sm.run = [](const Case &c) { subMode = true; std::string r = runCase(c); subMode = false; return r; };
+    sm.show = showCase; sm.parse = parseCase;
     auto &g = addMode<Case>("groupdup");
     g.gen = []() { return genCase(true); }; g.run = runGroupDup; g.show = showCase; g.parse = parseCase;
   }
